@@ -6,7 +6,7 @@ from .. import oracles as orc
 from ..gen import J, JI
 
 PROP = "C12"
-MONITORS = ("WF", "SPEC")
+MONITORS = ("WF", "SPEC", "FORM")
 REQUIRED_MONITORS = ("WF",)
 HOSTILE = ('special',)
 ANCHORS = [("factor.py", "ConjugateFactor.slice"), ("factor.py", "OneRankFactor.slice"),
